@@ -399,6 +399,7 @@ func extractC07() *lean {
 	l.def("configureWiring", "List String", leanStrList(wiring), wiring)
 	c07Iblt(l)
 	c07Disp(l)
+	c07Addr(l)
 	return l
 }
 
